@@ -49,7 +49,7 @@ func genC14(tier string, seed uint64) *simkit.Plan {
 		// deleted by hand), folders beyond the retention
 		p.SetKnob("premask", int64(1+r.Intn(1<<uint(rot+2)-1)))
 	}
-	p.SetKnob("target_has_state", int64(r.Intn(2)))
+	p.SetKnob("target_has_state", int64(r.Intn(3)))
 	// the pinset
 	n := r.Range(1, 12)
 	for i := 0; i < n; i++ {
@@ -256,6 +256,22 @@ func execC14(w *world) {
 					run.Probe("import_over_existing_state")
 				}
 			}
+			if plan.Knob("target_has_state", 0) == 2 {
+				// the target is what a killed peer leaves behind: log entries in
+				// raft.db and no snapshot written at shutdown
+				live := filepath.Join(dirB, "raft-live")
+				other := w.runSingle(live)
+				if other.alive {
+					apply(Step{Op: "pin", Pin: &PinSpec{Cid: 0, RMin: 1, RMax: 1, Allocs: []int{3}, Suffix: " old-target-state"}})
+					apply(Step{Op: "pin", Pin: &PinSpec{Cid: 1, RMin: -1, RMax: -1, Suffix: " old-target-state"}})
+					apply(Step{Op: "pin", Pin: &PinSpec{Cid: 2, RMin: -1, RMax: -1, Suffix: " old-target-state"}})
+					synctest.Wait()
+					copyDir(live, dataB)
+					w.stopSingle()
+					os.RemoveAll(live)
+					run.Probe("import_over_crashed_state")
+				}
+			}
 			cfgB := mkcfg(dataB)
 			ccB := &ipfscluster.Config{}
 			ccB.Default()
@@ -430,6 +446,23 @@ func (w *world) peerstoreRoundTrip(seed uint64) {
 			addrs = append(addrs, a)
 		}
 	}
+	if r.Chance(0.5) {
+		// the file was written before, at a time when more peers were known (a
+		// cluster that has shrunk since): this save replaces it
+		h0 := w.net.AddPeer(22)
+		pm0 := pstoremgr.New(context.Background(), h0, path)
+		var old []ma.Multiaddr
+		for i := 0; i < np+r.Range(1, 3); i++ {
+			pid := simkit.TestPeer(40 + i)
+			for j := 0; j < 3; j++ {
+				a, _ := ma.NewMultiaddr(fmt.Sprintf("/dns4/some-rather-long-host-name-%d-%d.example.org/tcp/%d/p2p/%s", i, j, 9100+j, pid.Pretty()))
+				old = append(old, a)
+			}
+		}
+		pm0.ImportPeers(old, false, peerstore.PermanentAddrTTL)
+		pm0.SavePeerstoreForPeers(h0.Peerstore().Peers())
+		run.Probe("peerstore_saved_over_longer_file")
+	}
 	pmA.ImportPeers(addrs, false, peerstore.PermanentAddrTTL)
 	if err := pmA.SavePeerstoreForPeers(hA.Peerstore().Peers()); err != nil {
 		run.Violate("C14/peerstore_save_error", "", "SavePeerstoreForPeers failed: %v", err)
@@ -462,6 +495,17 @@ func (w *world) peerstoreRoundTrip(seed uint64) {
 		}
 		if !found {
 			run.Violate("C14/peerstore_address_lost", "save", "address %s was known but is not in the saved file", a)
+		}
+	}
+	// and nothing else is: the file is what was saved, not what was there before
+	known := map[string]bool{}
+	for _, a := range addrs {
+		known[a.String()] = true
+	}
+	for _, l := range written {
+		if !known[l] {
+			run.Violate("C14/peerstore_stale_lines", "", "%d addresses were saved but the file holds %d lines, among them %q which was not saved", len(addrs), len(written), l)
+			break
 		}
 	}
 	// malformed lines in between must be skipped, not fatal
